@@ -40,7 +40,14 @@ func checkC18(c *Ctx) {
 	klen := `make\((\(\(call:\(\*math/big\.Int\)\.BitLen\+7\)/8\)|call:[^ ]*\.Size[^ ]*)\)`
 	c.callArgRule(p, "C18.finalize", "the blinded message has the length of the modulus", p.Func(br, "Client", "fixedBlind"), "(*math/big.Int).FillBytes", "", map[int]string{1: klen})
 	c.callArgRule(p, "C18.finalize", "the blinded message has the length of the modulus", p.Func(pb, "", "fixedPartiallyBlind"), "(*math/big.Int).FillBytes", "", map[int]string{1: klen})
+	modLen := `len\(param#[12]\) != \(\(call:\(\*math/big\.Int\)\.BitLen\+7\)/8\)`
+	c.rejectReasonsRule(p, "C18.finalize", reasonSpec{pkg: br, typ: "Client", name: "Finalize", why: "length, range of the blind signature, verification of the unblinded one",
+		callees: []string{"(*math/big.Int).Cmp", cm + ".VerifyBlindSignature"}, conds: []string{modLen}})
+	c.rejectReasonsRule(p, "C18.finalize", reasonSpec{pkg: pb, typ: "VerifierState", name: "Finalize", why: "length, range of the blind signature, verification of the unblinded one",
+		callees: []string{"(*math/big.Int).Cmp", cm + ".VerifyBlindSignature"}, conds: []string{modLen}})
 	for _, f := range []struct{ pkg, what string }{{br, "blind RSA"}, {pb, "partially blind RSA"}} {
+		c.rejectReasonsRule(p, "C18.signer", reasonSpec{pkg: f.pkg, typ: "Signer", name: "BlindSign", why: "length, range of the blinded message, the re-verified private-key operation",
+			callees: []string{"(*math/big.Int).Cmp", cm + ".DecryptAndCheck"}, conds: []string{modLen}})
 		bs := p.Func(f.pkg, "Signer", "BlindSign")
 		c.lenReject(p, "C18.signer", bs, "data", false)
 		c.guard(p, "C18.signer", f.what+": representative above the modulus refused", bs, GuardSpec{Assumes: []Assume{calleeAssume(latInt(1), -1, "(*math/big.Int).Cmp")}})
@@ -62,6 +69,16 @@ func checkC18(c *Ctx) {
 	}
 	for _, t := range pss {
 		c.guard(p, "C18.pss", "rejects unless "+t.name, pv, GuardSpec{BinAssumes: []BinAssume{binDesc(pv, t.name, t.re, latTrue)}})
+	}
+	// ... and only for these reasons (RFC 8017 9.1.2 steps 3-14): a further test refuses signatures
+	// crypto/rsa.VerifyPSS accepts
+	{
+		var conds []string
+		for _, t := range pss {
+			conds = append(conds, t.re)
+		}
+		conds = append(conds, `param#1\[:.*\]\[:.*\]\[.*\] != 0`)
+		c.rejectReasonsRule(p, "C18.pss", reasonSpec{pkg: cm, name: "emsaPSSVerify", why: "RFC 8017 9.1.2", callees: []string{"bytes.Equal", "bytes.IndexByte", "invoke (hash.Hash).Size"}, conds: conds})
 	}
 	// zero padding string: tested in a loop, through-site
 	if pv != nil {
